@@ -181,6 +181,13 @@ def routing(case, ctx):
         g, e = step("get", lambda: getattr(o, name))
         if e is not None or not model.labels_eq(list(np.asarray(g).tolist()), lab0):
             ctx.v(ID, "routing:dim-get", "%s: o.%s gave %r (%s), expected the axis labels %r" % (where, name, g, type(e).__name__ if e else None, lab0))
+        # an attrs entry that happens to carry the dimension's name does not shadow the axis
+        sentinel = ("sentinel", case["pick"])
+        o.attrs[name] = sentinel
+        g, e = step("get", lambda: getattr(o, name))
+        if e is not None or g is sentinel or not model.labels_eq(list(np.asarray(g).tolist()), lab0):
+            ctx.v(ID, "routing:dim-shadowed-by-attrs", "%s: with attrs[%r] set, o.%s gave %r (%s), expected the axis labels %r" % (where, name, name, g, type(e).__name__ if e else None, lab0))
+        del o.attrs[name]
         kind = gen.kind_of(lab0)
         newl = [x + 1000 for x in lab0] if kind != 's' else [x + 'Z' for x in lab0]
         newv = newl if rng.random() < 0.5 else gen.np_labels(newl, kind)
